@@ -774,6 +774,8 @@ func (t *Teamserver) SendEvent(id string, pk packager.Package) error {
 		defer client.Mutex.Unlock()
 		verifhook.Point("ws.send.locked")
 
+		// a peer that stopped reading must not hold the broadcaster (and this mutex) for ever
+		_ = client.Connection.SetWriteDeadline(time.Now().Add(5 * time.Second))
 		err = client.Connection.WriteMessage(websocket.BinaryMessage, buffer.Bytes())
 		if err != nil {
 			return err
